@@ -22,6 +22,11 @@ type Placement struct {
 	Abs       bool   `json:"abs,omitempty"`      // -out is given as an absolute path
 	Symlink   string `json:"symlink,omitempty"`  // -out is a symlink to this file (relative to the link's directory)
 	Dangling  bool   `json:"dangling,omitempty"` // ... which does not exist yet
+	// Via: the spelling of -out given to moq when it is not Out itself: a path
+	// through a symbolic link to a directory followed by "..", which the kernel
+	// resolves to Out and which lexical cleaning (filepath.Clean/Abs/Join) folds
+	// into another place
+	Via string `json:"via,omitempty"`
 }
 
 // Placements the generator chooses from.
@@ -233,6 +238,11 @@ func GenScenario(tp *tape.Tape, seed uint64, pf Profile) *Scenario {
 	sur := tape.New(tape.MixS(seed, "surroundings"))
 	sc.HardLinked = sc.Place.Writable && sc.Place.Symlink == "" && sur.Chance(200, 1000)
 	sc.SelfTyped = !sc.IncompleteMod && sur.Chance(150, 1000)
+	if sc.Place.Out == "mock_gen.go" && !sc.Place.Abs && sc.Place.Pkg == "" && sur.Chance(300, 1000) {
+		// lnk -> deep/er in the module root: src/../lnk/../../src is src for the kernel
+		sc.Place.Via = "../lnk/../../src/mock_gen.go"
+		sc.FromRoot = false
+	}
 	if sc.HardLinked {
 		runs := 0
 		for _, st := range sc.Steps {
